@@ -15,8 +15,8 @@ PROP = {
             "The consts sub-checks enumerate every named constant (ZERO, ONE, NEG_ONE, MIN, MAX, NAN, INFINITY, NEG_INFINITY, X..W, NEG_X..NEG_W, AXES[i], Quat IDENTITY/NAN) "
             "against its documented lanes through every read path.",
     "builds": {
-        "quick": [B("stable"), B("fma", 0.25), B("nightly", 0.25, False), B("rlayout", 0.25, False), B("asan", 0.1, False)],
-        "thorough": [B("stable"), B("fma", 0.5), B("nightly", 0.5, False), B("rlayout", 0.25, False), B("asan", 0.1, False)],
+        "quick": [B("stable"), B("fma", 0.25), B("nightly", 0.25, False), B("rlayout", 0.25, False), B("asan-sse2", 0.1, False)],
+        "thorough": [B("stable"), B("fma", 0.5), B("nightly", 0.5, False), B("rlayout", 0.25, False), B("asan-sse2", 0.1, False)],
     },
     "fuzz": {"target": "c17_history", "runs": {"thorough": 500000}},
     "technique": "model-based property testing: proptest-generated histories of constructor / lane-write / read-and-rebuild steps interpreted against an array-of-bits model, all read paths "
